@@ -3,7 +3,7 @@ CONSTANTS
   Threads = {1, 2}
   Funcs = {"f", "g"}
   MaxAttempts = 2
-  ClearOnFail = FALSE
-  ClearOnReadFail = TRUE
+  ClearOnFail = TRUE
+  ClearOnReadFail = FALSE
   UseLock = TRUE
 INVARIANT NoResidue
